@@ -24,7 +24,7 @@ ASSUMPTIONS = [
     "Modbus/TCP has no checksum: a same-length corrupted remainder may legitimately be accepted there (the property "
     "restricts clause (b) to the checksummed framings)",
 ]
-MUST = ["late_remainder_between_pieces_of_next_answer", "split_answers_with_wrong_mbap_length", "payloads_resembling_frame_headers", "reassembled_while_another_caller_queued", "reassembled_after_corrupt_answer", "reassembled_rtu", "reassembled_tcp", "reassembled_aa55", "partial_branch", "leftover_cleared", "late_second_piece",
+MUST = ["retransmission_answered_in_complementary_pieces", "late_remainder_between_pieces_of_next_answer", "split_answers_with_wrong_mbap_length", "payloads_resembling_frame_headers", "reassembled_while_another_caller_queued", "reassembled_after_corrupt_answer", "reassembled_rtu", "reassembled_tcp", "reassembled_aa55", "partial_branch", "leftover_cleared", "late_second_piece",
         "wrong_second_piece_refused", "foreign_datagram_between_fragments", "both_pieces_delayed", "two_objects_fragmented", "other_timeouts", "aa55_checksum_wraps"]
 EXHAUSTIVE = {"quick": False, "thorough": True}
 EPS = 1e-6
@@ -96,6 +96,14 @@ class FragPeer(ScriptedPeer):
             return
         if n == 2 and sc.get("second_tx") == "remainder" and not pre:
             return self.send(s, self.v1[sc["split"]:], 0, n, 1)
+        if n == 2 and sc.get("second_tx") == "split_c" and not pre:
+            # answer 1 was only a first fragment of k bytes; the retransmission is answered in two pieces of which the FIRST is exactly as
+            # long as what the stale fragment was short of (L - k bytes), the rest 0.3 T later
+            k2 = len(v) - sc["split"]
+            if 0 < k2 < len(v):
+                self.send(s, v[:k2], 0, n, 1)
+                return self.send(s, v[k2:], 0.3 * T, n, 2)
+            return self.send(s, v, 0, n, 1)
         if n == 2 and sc.get("second_tx") == "split" and not pre:
             # the retransmission is answered in two pieces as well (other register contents by now); the LATE remainder of answer 1
             # lands between them
@@ -160,7 +168,7 @@ def check_run(sc, run, part: Part):
             k = sc["split"]
             # (when the split falls right behind the header, header + remainder of another conforming response IS
             #  that other conforming response byte for byte - the wire carries no correlation id - so it is allowed)
-            if raw[:k] == v1[:k] and raw != v1 and raw != peer.other and 0 < k < len(v1) and \
+            if raw[:k] == v1[:k] and raw != v1 and raw != peer.other and 0 < k < len(v1) and raw not in getattr(peer, "fulls", []) and \
                     not any(raw == p for ps in pieces.values() for p in ps):
                 out.append((f"C07/{f}/fragment-plus-foreign-data-accepted",
                             f"result starts with the first fragment but is not the unsplit frame: {raw.hex()[:80]}"))
@@ -189,6 +197,14 @@ def check_run(sc, run, part: Part):
                 part.count("both_pieces_delayed")
             if sc.get("pre"):
                 part.count("reassembled_after_corrupt_answer")
+    if sc["second_tx"] == "split_c" and HEADER[f] <= sc["split"] < len(v1) and HEADER[f] <= len(v1) - sc["split"]:
+        # the retransmission's answer arrived completely and in time (two pieces, 0.3 T apart): success on transmission 2 with those bytes
+        fulls = getattr(peer, "fulls", [])
+        if rec["outcome"] != "ok" or len(txs) != 2 or bytes.fromhex(rec["result"]["raw"]) not in fulls[1:2]:
+            got = rec["result"]["raw"][:60] if rec["outcome"] == "ok" else rec["outcome"]
+            out.append((f"C07/{f}/exact-fragments-not-reassembled",
+                        f"count={sc['count']} keep_alive={sc['keep_alive']}: transmission 1 answered by a lone first fragment of {sc['split']} bytes, the retransmission by "
+                        f"two pieces ({len(v1) - sc['split']} + {sc['split']} bytes, 0.3 T apart): {len(txs)} transmissions, outcome {got}"))
     if sc["kind"] == "exact" and sc["delay"] > T:
         part.count("late_second_piece")
     if sc["second_tx"] == "remainder" and len(txs) >= 2:
@@ -357,8 +373,9 @@ def run_shard(spec):
                     sc["payload"] = "ff"
                     run_case(sc, part)
                     part.count("aa55_checksum_wraps")
-            if k % 2 == 1 or k in (HEADER[f], L - 2):
-                # payload made of AA 55 pairs: the remainder itself starts with the frame-header bytes
+            if k >= 1:
+                # payload made of AA 55 pairs: the remainder itself starts with the frame-header bytes (odd split points) or holds them
+                # from its second byte on (even split points)
                 for delay in (0.0, 0.5):
                     sc = scenario(f, spec["ka"], T, 2, count, k, "exact", delay, "now", spec["aa55_len"])
                     sc["payload"] = "aa55"
@@ -370,6 +387,11 @@ def run_shard(spec):
                             sc["payload"] = pl_
                             run_case(sc, part)
                             part.count("payloads_resembling_frame_headers")
+            if HEADER[f] <= k < L and HEADER[f] <= L - k:
+                # a lone first fragment, then the retransmission answered in two pieces, the first as long as the stale fragment's gap
+                sc = scenario(f, spec["ka"], T, 2, count, k, "none", 0.0, "split_c", spec["aa55_len"])
+                run_case(sc, part)
+                part.count("retransmission_answered_in_complementary_pieces")
             if HEADER[f] <= k < L:
                 # remainder of answer 1 delayed past the timeout (1.3 T); the retransmission's answer is split too, its second piece at
                 # 1.7 T: the late piece of answer 1 arrives between the two pieces of answer 2 (same lengths, other contents)
